@@ -30,7 +30,17 @@ type functionStore struct {
 
 	// predefFuncIndexes holds the indexes of the predefined functions that have
 	// been added to Predefined because they are referenced in the Scriggo code.
-	predefFuncIndexes map[*runtime.Function]map[reflect.Value]int8
+	//
+	// A function is identified by its reflect.Value, and a method by a
+	// nativeMethod value.
+	predefFuncIndexes map[*runtime.Function]map[any]int8
+}
+
+// nativeMethod identifies the method of a native type, with the type of the
+// receiver and the name of the method.
+type nativeMethod struct {
+	recv reflect.Type
+	name string
 }
 
 // newFunctionStore returns a new functionStore.
@@ -39,7 +49,7 @@ func newFunctionStore(emitter *emitter) *functionStore {
 		emitter:               emitter,
 		availableScriggoFuncs: map[*ast.Package]map[string]*runtime.Function{},
 		scriggoFuncIndexes:    map[*runtime.Function]map[*runtime.Function]int8{},
-		predefFuncIndexes:     map[*runtime.Function]map[reflect.Value]int8{},
+		predefFuncIndexes:     map[*runtime.Function]map[any]int8{},
 	}
 }
 
@@ -108,19 +118,27 @@ func (fs *functionStore) predefFunc(fn ast.Expression, allowMethod bool) (int8, 
 	// Add the function to the Predefined slice, or get the index if already
 	// present.
 	fnRv := ti.value.(reflect.Value)
+	var key any = fnRv
+	if sel, ok := fn.(*ast.Selector); ok {
+		// The reflect package returns a different reflect.Value every time
+		// that a method is got from its type.
+		if recv := fs.emitter.ti(sel.Expr); recv != nil && recv.Type != nil && (ti.MethodType != noMethod || recv.IsType()) {
+			key = nativeMethod{recv.Type, sel.Ident}
+		}
+	}
 	currFn := fs.emitter.fb.fn
 	if fs.predefFuncIndexes[currFn] == nil {
-		fs.predefFuncIndexes[currFn] = map[reflect.Value]int8{}
+		fs.predefFuncIndexes[currFn] = map[any]int8{}
 	}
-	if index, ok := fs.predefFuncIndexes[currFn][fnRv]; ok {
+	if index, ok := fs.predefFuncIndexes[currFn][key]; ok {
 		return index, true
 	}
 	f := newNativeFunction(ti.NativePackageName, name, fnRv.Interface())
 	index := fs.emitter.fb.addNativeFunction(f)
 	if fs.predefFuncIndexes[currFn] == nil {
-		fs.predefFuncIndexes[currFn] = map[reflect.Value]int8{}
+		fs.predefFuncIndexes[currFn] = map[any]int8{}
 	}
-	fs.predefFuncIndexes[currFn][fnRv] = index
+	fs.predefFuncIndexes[currFn][key] = index
 	return index, true
 
 }
